@@ -718,6 +718,14 @@ def real_files(ctx, n_spec, n_hist):
     sc = C.Scratch()
     r = ctx.rng
     try:
+        # forced shape: leaves emptied one commit after the other inside a WAL; the first freed leaf becomes the
+        # freelist trunk page and is rewritten, around its untouched residue, by every later commit that frees a page
+        for j, (shape, ps) in enumerate([("int_text_real", 512), ("alias_text", 1024)]):
+            spec = gen_spec(r, mode="wal", shape=shape, ps=ps, rows=150)
+            spec["auto_vacuum"] = 0
+            spec["steps"] = [[f"DELETE FROM t WHERE rowid BETWEEN {lo} AND {lo + 29}"] for lo in (1, 31, 61, 91)]
+            run_spec(ctx, sc.dir, spec, f"c08f{j}")
+            ctx.branch("scenario:forced:leaves-freed-commit-by-commit")
         for i in range(n_spec):
             run_spec(ctx, sc.dir, gen_spec(r), f"c08s{i}")
         kinds = ["plain", "ddl", "plain", "grow_shrink", "checkpoint_restart", "plain"]
